@@ -46,13 +46,14 @@ def rowView (n : Nat) : TRow → Option (List Int)
 
 def traceView (n : Nat) (t : List TRow) : List (Option (List Int)) := t.map (rowView n)
 
-/-- first unclean fiber that is followed by another fiber in its group -/
+/-- first fiber that leaves a lone trailing row and is followed by another fiber in its group
+    (the class in which one-shot totals were wrong before the repair of the intersectors) -/
 def dirtyKind : List FiberIn → Option String
   | [] => none
   | [_] => none
   | f :: g =>
-    if f.a.isEmpty != f.b.isEmpty then some "dirty:one-operand-empty-before-boundary"
-    else if !cleanEnd f.a f.b then some "dirty:match-exhausts-one-operand-before-boundary"
+    if f.a.isEmpty != f.b.isEmpty then some "lone-row:one-operand-empty-before-boundary"
+    else if !cleanEnd f.a f.b then some "lone-row:match-exhausts-one-operand-before-boundary"
     else dirtyKind g
 
 def c19FiberTags (f : FiberIn) : List String :=
@@ -80,7 +81,7 @@ def handleAnd (j : Json) : Except String Verdict := do
   let dflt := fIntD j "dflt" 0
   let groups ← (← fArr j "groups").mapM (fun g => do (← asList g).mapM (parseFiberIn dflt))
   let fs := groups.flatten
-  if !(fs.all (FiberIn.shapeOk n)) || n == 0 then
+  if !(fs.all (FiberIn.shapeOk n)) || n == 0 || !(groups.all ascPre) then
     return { agree := true, spec := true, tags := ["OUT_OF_MODEL"] }
   let impl ← field j "impl"
   let ib ← (← fArr impl "batches").mapM (fun b => do
@@ -148,6 +149,19 @@ def parseLat (j : Json) : Except String Lat := do
   | .str _ => pure Lat.inf
   | v => do pure (Lat.fin (← v.getNat?))
 
+def hasCoords : (d : Nat) → T d → Bool
+  | 0, _ => true
+  | d + 1, f => !(show List (Int × T d) from f).isEmpty
+
+/-- some stored sub-fiber on the walk holds coordinates but only default values (the class in
+    which the count depended on payload values before the repair of `_numSwapsTree`) -/
+def allDefaultSub (dflt : Int) (e : Nat) : (depth : Nat) → T (e + 2 + depth) → Bool
+  | 0, f => (show List (Int × T (e + 1)) from f).any
+      (fun el => isEmpty dflt (e + 1) el.2 && hasCoords (e + 1) el.2)
+  | depth + 1, f => (show List (Int × T (e + 2 + depth)) from f).any
+      (fun el => (isEmpty dflt (e + 2 + depth) el.2 && hasCoords (e + 2 + depth) el.2)
+                 || allDefaultSub dflt e depth el.2)
+
 def handleSwaps (j : Json) : Except String Verdict := do
   let e ← fNat j "e"
   let depth ← fNat j "depth"
@@ -159,17 +173,17 @@ def handleSwaps (j : Json) : Except String Verdict := do
   if !(wfB (e + 2 + depth) t) || !radixOk then
     return { agree := true, spec := true, tags := ["OUT_OF_MODEL"] }
   let impl := optTotal j "impl"
-  let m := numSwapsTree dflt e radix lat depth t
+  let m := numSwapsTree e radix lat depth t
   -- the executable specification: closed-form rounds cost / insertion-buffer merge, on the skeleton
   let sk := skel (e + 2 + depth) t
   let s := match lat with
     | .fin l => swapsSpecFin e radix l depth sk
     | .inf => swapsSpecInf e radix depth sk
-  let nodes := mergeNodes dflt e depth t
+  let nodes := mergeNodes e depth t
   let tags := c19Dedup ([s!"depth={depth}", s!"below={e}",
       (match lat with | .inf => "lat=N" | .fin _ => "lat=int"),
       (match radix with | none => "radix=inf" | some _ => "radix=int")] ++
-    (if presentAgrees dflt e depth t then [] else ["hidden-empty"]) ++
+    (if allDefaultSub dflt e depth t then ["all-default-subfiber"] else []) ++
     (if nodes.any (fun l => l.length ≥ 2) then ["merge"] else ["no-merge"]) ++
     (if nodes.any (fun l => match radix with | some r => l.length > r | none => false) then ["multi-round"] else []) ++
     (if nodes.length ≥ 2 then ["several-nodes"] else []))
